@@ -38,7 +38,7 @@ ASSUMPTIONS = [
     "overwritten with the original's values so the continuation check still decides everything else",
 ]
 REQUIRED_COUNTERS = ["restored_leaves_compared", "continuation_checks", "greedy_action_checks"]
-CASE_TIMEOUT_S = 300
+CASE_TIMEOUT_S = 1500
 
 OBS_FOR = {"NeuralUCB": ["vector", "image", "dict"], "NeuralTS": ["vector", "image", "dict"]}
 
